@@ -473,6 +473,30 @@ func schedCase(k *engine.Case) {
 		}
 		ok = check(fmt.Sprintf("step %d", s))
 		k.Count("quiescent_cuts", 1)
+		{
+			// abstract lock state: per hot key (readers held, writer held, pending readers, pending writers)
+			var sb strings.Builder
+			for key := 0; key < hot; key++ {
+				var rh, wh, rp, wp int
+				for _, o := range ops {
+					if !o.mentions(key) {
+						continue
+					}
+					switch st := state(o); {
+					case st == "held" && o.write:
+						wh++
+					case st == "held":
+						rh++
+					case st == "pending" && o.write:
+						wp++
+					case st == "pending":
+						rp++
+					}
+				}
+				fmt.Fprintf(&sb, "%d%d%d%d ", rh, wh, rp, wp)
+			}
+			k.C.ObserveStr("abstract_lock_states", sb.String())
+		}
 	}
 	if !ok {
 		cleanup()
